@@ -1518,3 +1518,4 @@ class NodeRef:
 # the remaining domains live in separate modules but share this registry
 from .aten import *  # noqa: E402,F401,F403
 from .lten import *  # noqa: E402,F401,F403
+from . import cvx as _cvx  # noqa: E402,F401
